@@ -6,7 +6,8 @@ package main
 //   c12-ir      random schema sets (irgen.go)      rows as in c12-lab: defschemas / jsemit / jswf
 //   c12-pinned  hand-built sets, one per recorded finding, with value documents
 //               (what the generated Go types encode) validated against the emitted schema
-//   c12-hang    ONE real run of the emitter on a recursive foreign object, under a watchdog
+//   c12-hang    ONE real run of the emitter on a recursive foreign object, under a watchdog (the loop
+//               was repaired in 56f489a: a relapse is reported as `hang`)
 
 import (
 	"bufio"
@@ -56,6 +57,39 @@ func c12ImplReply(text []byte, err error) string {
 	return "ok " + c12Compact(text)
 }
 
+// The foreign-object loop of GenerateSchema used to run forever on foreign objects that refer to each
+// other in a cycle (fixed in 56f489a). Sets with such a cycle (detected independently of the emitter)
+// are run under a watchdog so that a relapse shows up as a `hang` row instead of a stuck harness.
+var c12Hung bool // a run timed out: its goroutine is still spinning; later cyclic sets are not run
+
+const c12Watchdog = 5 * time.Second
+
+func c12Guarded[T any](cyclic bool, fn func() (T, error)) (res T, err error, hung bool) {
+	if !cyclic {
+		res, err = fn()
+		return res, err, false
+	}
+	if c12Hung {
+		return res, nil, true
+	}
+	type out struct {
+		v   T
+		err error
+	}
+	done := make(chan out, 1)
+	go func() {
+		v, err := fn()
+		done <- out{v, err}
+	}()
+	select {
+	case o := <-done:
+		return o.v, o.err, false
+	case <-time.After(c12Watchdog):
+		c12Hung = true
+		return res, nil, true
+	}
+}
+
 // c12EmitRows writes the rows of one schema set.
 // loaders: also hand the documents to the independent loaders (only for IR a front-end can produce:
 // the random IR has duplicate enum values, self-aliases, … which the loaders rightly refuse).
@@ -67,11 +101,7 @@ func c12EmitRows(out *bufio.Writer, id string, schemas ast.Schemas, stats map[st
 			anyCyclic = true
 		}
 	}
-	var oaFiles map[string][]byte
-	var oaErr error
-	if !anyCyclic {
-		oaFiles, oaErr = c12EmitOpenAPI(schemas)
-	}
+	oaFiles, oaErr, oaHung := c12Guarded(anyCyclic, func() (map[string][]byte, error) { return c12EmitOpenAPI(schemas) })
 	seenPkg := map[string]bool{}
 	for _, s := range schemas {
 		if seenPkg[s.Package] {
@@ -83,18 +113,16 @@ func c12EmitRows(out *bufio.Writer, id string, schemas ast.Schemas, stats map[st
 		if len(fo.objs) > 0 {
 			stats["with-foreign-objects"]++
 		}
-		if fo.cyclic && c12MalformedInput(schemas, s) {
-			// would panic on the malformed object before (or instead of) looping: not run, not compared
-			stats["cyclic-and-malformed-skipped"]++
-			continue
-		}
 		if fo.cyclic {
-			stats["predicted-hang"]++
-			v := fmt.Sprintf("FAIL emission-does-not-terminate pkg=%s foreign objects refer to each other in a cycle", s.Package)
+			stats["foreign-cycles"]++
+		}
+		text, err, hung := c12Guarded(fo.cyclic, func() ([]byte, error) { return c12EmitJSONSchema(schemas, s) })
+		if hung {
+			stats["hang"]++
+			v := fmt.Sprintf("FAIL emission-does-not-terminate pkg=%s no result after %v (watchdog); foreign objects refer to each other in a cycle", s.Package, c12Watchdog)
 			fmt.Fprintf(out, "jsemit %s %s js\thang\t%s\n", id, s.Package, v)
 			continue
 		}
-		text, err := c12EmitJSONSchema(schemas, s)
 		verdict := "ok"
 		if err == nil {
 			verdict = c12VerdictJSONSchema(schemas, s, text, loaders)
@@ -116,15 +144,27 @@ func c12EmitRows(out *bufio.Writer, id string, schemas ast.Schemas, stats map[st
 			})
 			fmt.Fprintf(out, "jswf %s %s\trefs=%v present=%v\tok\n", id, s.Package, len(c12Unresolved(emitted, false)) == 0, present)
 		}
-		if !anyCyclic {
-			if oaErr != nil {
-				// the OpenAPI jenny formats every schema of the set in one call: its failure cannot be
-				// attributed to this package (the JSON Schema rows, one call per package, cover it)
-				stats["openapi-generate-failed-for-the-set"]++
-			} else if t, ok := oaFiles[s.Package]; ok {
+		switch {
+		case oaHung:
+			stats["openapi-hang"]++
+			fmt.Fprintf(out, "jsemit %s %s oa\thang\tFAIL emission-does-not-terminate pkg=%s OpenAPI jenny: no result after %v (watchdog)\n", id, s.Package, s.Package, c12Watchdog)
+		case oaErr != nil:
+			// the OpenAPI jenny formats every schema of the set in one call: its failure cannot be
+			// attributed to this package (the JSON Schema rows, one call per package, cover it)
+			stats["openapi-generate-failed-for-the-set"]++
+		default:
+			if t, ok := oaFiles[s.Package]; ok {
 				fmt.Fprintf(out, "jsemit %s %s oa\tok %s\t%s\n", id, s.Package, c12Compact(t), c12VerdictOpenAPI(schemas, s, t, loaders))
 			}
 		}
+	}
+}
+
+// c12ExitIfHung: a timed-out emitter goroutine cannot be stopped; leave once the rows are written.
+func c12ExitIfHung(out *bufio.Writer) {
+	if c12Hung {
+		out.Flush()
+		os.Exit(0)
 	}
 }
 
@@ -145,6 +185,7 @@ func init() {
 			c12EmitRows(out, fmt.Sprintf("i%d", i), schemas, stats, false)
 		}
 		fmt.Fprintf(out, "-\tstats %v\tok\n", stats)
+		c12ExitIfHung(out)
 		return nil
 	})
 }
@@ -306,8 +347,9 @@ func c12PinnedSets() []c12Pinned {
 
 func c12HangSet() c12Pinned {
 	return c12Pinned{
-		id: "foreigncycle", what: "a recursive foreign object: the closure loop of GenerateSchema never ends",
+		id: "foreigncycle", what: "a recursive foreign object: the closure loop of GenerateSchema used to run forever (fixed in 56f489a); it must be emitted once",
 		pkg: "a", root: "Root",
+		values: []string{`{"list":{"next":{"next":{}}}}`, `{}`},
 		schemas: ast.Schemas{
 			c12Schema("a", "Root", c12Obj("a", "Root", ast.NewStruct(c12Field("list", ast.NewRef("b", "Node"), false)))),
 			c12Schema("b", "", c12Obj("b", "Node", ast.NewStruct(c12Field("next", ast.NewRef("b", "Node"), false)))),
@@ -327,7 +369,7 @@ func init() {
 			fmt.Fprintf(out, "-\tpinned %s %s\tok\n", p.id, p.what)
 			c12EmitRows(out, id, p.schemas, stats, true)
 			s := c12FindSchema(p.schemas, p.pkg)
-			if s == nil || c12ForeignObjects(p.schemas, s).cyclic {
+			if s == nil || c12Hung {
 				continue
 			}
 			text, err := c12EmitJSONSchema(p.schemas, s)
@@ -352,6 +394,7 @@ func init() {
 				fmt.Fprintf(out, "jsvalid %s %s %s %s\t%s\t%s\t%s\n", id, p.pkg, p.root, doc.sexp(), impl, verdict, doc.json())
 			}
 		}
+		c12ExitIfHung(out)
 		return nil
 	})
 
